@@ -3183,3 +3183,180 @@ Module AppSamples.
     refine (wrun_AppOK false _ _ ex_election_trace f0_inv _). unfold NAppOK, AppOK. vm_compute. constructor.
   Qed.
 End AppSamples.
+
+(* ================================================================== *)
+(* Part G. The hand-out cursor stays a proper u64                        *)
+(* ================================================================== *)
+(* the first half of [handout_side] is itself an invariant (given Config.applied <
+   u64::MAX): commit_since_index only moves to the index of a handed-out entry or of a
+   pending snapshot, both at most committed <= last_index < u64::MAX *)
+Definition CsiOK (n : rawnode) : Prop := rn_commit_since_index n < u64_max.
+
+Lemma last_In {A} (l : list A) d : l <> [] -> In (List.last l d) l.
+Proof.
+  induction l as [|a [|b t] IH]; intros H; [congruence|left; reflexivity|].
+  right. apply IH. discriminate.
+Qed.
+
+Lemma gen_light_ready_CsiOK rw n n' lr :
+  gen_light_ready n = Ok (n', lr) -> NLI rw n -> CsiOK n -> CsiOK n'.
+Proof.
+  intros H HI Hc. unfold CsiOK in *.
+  destruct (commit_since_monotone_light _ _ _ H) as (_ & A & B).
+  destruct (lr_committed_entries lr) as [|e t] eqn:E; [rewrite (A eq_refl); exact Hc|].
+  destruct (B ltac:(discriminate)) as [B1 _]. rewrite B1.
+  destruct (handout_bound rw n n' lr HI Hc H) as (_ & _ & Hin & _).
+  destruct (Hin (List.last (lr_committed_entries lr) entry_default)) as (_ & Hle & _).
+  { apply last_In. rewrite E. discriminate. }
+  rewrite E in Hle. pose proof (RepInv_committed_le_last rw _ HI). pose proof (RepInv_last_bound rw _ HI). lia.
+Qed.
+
+Lemma ready_since_bound rw n : NLI rw n -> CsiOK n -> ready_since n < u64_max.
+Proof.
+  intros HI Hc. unfold ready_since. pose proof (ri_shape rw _ HI) as Hsh.
+  destruct (u_snapshot (unst (r_log (rn_raft n)))) as [s|]; [|exact Hc].
+  destruct Hsh as [_ Hs]. pose proof (RepInv_committed_le_last rw _ HI). pose proof (RepInv_last_bound rw _ HI). lia.
+Qed.
+
+Lemma rn_ready_CsiOK rw n n' rd : rn_ready n = Ok (n', rd) -> NLI rw n -> CsiOK n -> CsiOK n'.
+Proof.
+  intros H HI Hc.
+  destruct (rn_ready_inv _ _ _ H) as (recs & snap & csi & rec_snap & ms2 & n2 & light & _ & Hsnap & Hgl & Hn' & _).
+  assert (Hcsi : csi = ready_since n).
+  { unfold ready_snap in Hsnap. unfold ready_since.
+    destruct (u_snapshot (unst (r_log (rn_raft n)))); [|inversion Hsnap; reflexivity].
+    destruct Hsnap as (_ & _ & E). inversion E; reflexivity. }
+  subst csi n'. change (CsiOK n2).
+  eapply (gen_light_ready_CsiOK rw); [exact Hgl|exact HI|].
+  unfold CsiOK. cbn. eapply ready_since_bound; eassumption.
+Qed.
+
+Theorem exec_CsiOK rw n o n' ot :
+  exec n o = Ok (n', ot) -> op_wf n o -> NLI rw n -> CsiOK n -> CsiOK n'.
+Proof.
+  intros H W HI Hc.
+  assert (Haa : forall rd n1 lr, advance_pre n -> rn_advance_append n rd = Ok (n1, lr) -> CsiOK n1).
+  { intros rd n1 lr [P1 P2] Ha.
+    destruct (rn_advance_append_inv _ _ _ _ Ha) as (m1 & m2 & m3 & lr3 & H1 & H2 & H3 & _ & _ & _ & _ & Hn' & _).
+    destruct (commit_ready_pres rw _ _ _ H1 P1 HI) as (A1 & _ & C1 & (_ & D2 & _) & E1 & F1).
+    assert (P2' : persist_pre m1 (rn_max_number m1)).
+    { unfold persist_pre in *. rewrite E1, F1, D2, C1. exact P2. }
+    destruct (rn_on_persist_ready_pres rw _ _ _ H2 P2' A1) as (A2 & _).
+    assert (C2 : CsiOK m2).
+    { unfold CsiOK. rewrite (on_persist_ready_csi _ _ _ H2), (commit_ready_csi _ _ _ H1). exact Hc. }
+    pose proof (gen_light_ready_CsiOK rw _ _ _ H3 A2 C2) as C3. subst n1. exact C3. }
+  destruct o;
+    try (match type of H with exec _ ?o = _ =>
+           destruct (quiet_ops_csi n o n' ot I H) as [_ E] end; unfold CsiOK; rewrite E; exact Hc).
+  - cbn [exec] in H. inv_bind H. destruct x as [n1 rd]. inversion H; subst. cbn [fst].
+    eapply rn_ready_CsiOK; eassumption.
+  - cbn [exec op_wf] in H, W. inv_bind H. destruct x as [n1 lr]. inversion H; subst. cbn [fst].
+    unfold rn_advance in Hx. inv_bind Hx. destruct x as [n2 lr2]. cbn [fst snd] in Hx.
+    inv_bind Hx. inversion Hx; subst. unfold rn_advance_apply_to in Hx1.
+    unfold CsiOK. rewrite (lift_csi _ _ _ Hx1). eapply Haa; [exact (proj1 W)|exact Hx0].
+  - cbn [exec op_wf] in H, W. inv_bind H. destruct x as [n1 lr]. inversion H; subst. cbn [fst].
+    eapply Haa; eassumption.
+Qed.
+
+(* what is left as a caller-side condition at the hand-out points *)
+Definition op_pre_node2 (n : rawnode) (o : op) : Prop :=
+  op_wf n o /\
+  match o with
+  | OReady => ll_first (abs (nlog n)) <= ready_since n + 1
+  | OAdvance rd | OAdvanceAppend rd =>
+      forall n1 n2, commit_ready n rd = Ok n1 ->
+                    rn_on_persist_ready n1 (rn_max_number n1) = Ok n2 ->
+                    ll_first (abs (nlog n2)) <= rn_commit_since_index n2 + 1
+  | _ => True
+  end.
+
+Lemma op_pre_node2_node rw n o : NLI rw n -> CsiOK n -> op_pre_node2 n o -> op_pre_node n o.
+Proof.
+  intros HI Hc [W S]. split; [exact W|]. destruct o; try exact I.
+  - split; [eapply ready_since_bound; eassumption|exact S].
+  - intros n1 n2 H1 H2. split; [|exact (S n1 n2 H1 H2)].
+    rewrite (on_persist_ready_csi _ _ _ H2), (commit_ready_csi _ _ _ H1). exact Hc.
+  - intros n1 n2 H1 H2. split; [|exact (S n1 n2 H1 H2)].
+    rewrite (on_persist_ready_csi _ _ _ H2), (commit_ready_csi _ _ _ H1). exact Hc.
+Qed.
+
+Inductive nrun2 : rawnode -> hist -> rawnode -> hist -> Prop :=
+| nrun2_nil n h : nrun2 n h n h
+| nrun2_cons n h o n1 ot n' h' :
+    op_pre_node2 n o -> exec n o = Ok (n1, ot) -> nrun2 n1 (hist_step h ot) n' h' -> nrun2 n h n' h'.
+
+Theorem handout_contiguous_node2 rw n h n' h' :
+  NLI rw n -> CsiOK n -> Hist n h -> nrun2 n h n' h' -> Hist n' h' /\ NLI rw n' /\ CsiOK n'.
+Proof.
+  intros HI Hc HH R. induction R as [|n h o n1 ot n' h' Hp He R IH]; [splits; assumption|].
+  apply IH.
+  - eapply exec_pres; [exact He|exact (proj1 Hp)|exact HI].
+  - eapply exec_CsiOK; [exact He|exact (proj1 Hp)|exact HI|exact Hc].
+  - eapply handout_exec; [exact HH| |exact He].
+    eapply op_pre_node_op_pre; [exact HI|]. eapply op_pre_node2_node; eassumption.
+Qed.
+
+Theorem handout_contiguous_from_new2 c st sa dr n0 n h :
+  rn_new c st sa dr = Ok (inr n0) -> SInv st -> trig_log st = false -> c_applied c < u64_max ->
+  nrun2 n0 (c_applied c, []) n h -> Hist n h /\ NLogOK n /\ rn_commit_since_index n < u64_max.
+Proof.
+  intros H Hs Hq Ha R. destruct (rn_new_pres _ _ _ _ _ H Hs Hq) as (A & _).
+  assert (C0 : CsiOK n0).
+  { unfold CsiOK. unfold rn_new in H. destruct (c_id c =? 0); [discriminate|].
+    inv_bind H. destruct x as [e|r]; inversion H; subst. exact Ha. }
+  destruct (handout_contiguous_node2 true _ _ _ _ A C0 (handout_init _ _ _ _ _ H) R) as (B & D & E).
+  splits; [exact B|exists true; exact D|exact E].
+Qed.
+
+Lemma op_pre_node2_def n o :
+  op_pre_node2 n o <->
+  op_wf n o /\
+  match o with
+  | OReady => ll_first (abs (r_log (rn_raft n))) <= ready_since n + 1
+  | OAdvance rd | OAdvanceAppend rd =>
+      forall n1 n2, commit_ready n rd = Ok n1 ->
+                    rn_on_persist_ready n1 (rn_max_number n1) = Ok n2 ->
+                    ll_first (abs (r_log (rn_raft n2))) <= rn_commit_since_index n2 + 1
+  | _ => True
+  end.
+Proof. reflexivity. Qed.
+
+Lemma nrun2_iff n h n' h' :
+  nrun2 n h n' h' <->
+  (n' = n /\ h' = h)
+  \/ exists o n1 ot, op_pre_node2 n o /\ exec n o = Ok (n1, ot) /\ nrun2 n1 (hist_step h ot) n' h'.
+Proof.
+  split.
+  - intros R. destruct R; [left; split; reflexivity|right; eauto 10].
+  - intros [[-> ->]|(o & n1 & ot & A & B & C0)]; [constructor|econstructor; eassumption].
+Qed.
+
+Lemma CsiOK_def n : CsiOK n <-> rn_commit_since_index n < u64_max.
+Proof. reflexivity. Qed.
+
+Module HandoutSamples.
+  Import Samples RepInvSamples.
+  (* the single-voter trace of ex_leader_trace as a hand-out run: the empty entry (1,1)
+     is handed out by advance_append, right after Config.applied = 0 *)
+  Example ex_handout_run : nrun2 node0 (0, []) node3 (0, [e1]).
+  Proof.
+    eapply (nrun2_cons node0 _ OCampaign node1).
+    { split; [vm_compute; reflexivity|exact I]. }
+    { vm_compute. reflexivity. }
+    eapply (nrun2_cons node1 _ OReady (fst ready1)).
+    { split; [exact I|]. vm_compute. discriminate. }
+    { vm_compute. reflexivity. }
+    eapply (nrun2_cons (fst ready1) _ (OSetStore store1) node2).
+    { split; [|exact I]. apply SW_entries; [reflexivity|vm_compute; reflexivity]. }
+    { reflexivity. }
+    eapply (nrun2_cons node2 _ (OAdvanceAppend (snd ready1)) node3).
+    { split.
+      - split.
+        + split; [intros C; vm_compute in C; congruence|intros _; vm_compute; reflexivity].
+        + unfold persist_pre. vm_compute. intros C; discriminate.
+      - intros n1 n2 H1 H2. vm_compute in H1. inversion H1; subst n1; clear H1.
+        vm_compute in H2. inversion H2; subst n2; clear H2. vm_compute. discriminate. }
+    { vm_compute. reflexivity. }
+    vm_compute. apply nrun2_nil.
+  Qed.
+End HandoutSamples.
